@@ -249,7 +249,7 @@ def replay_text(cfg, hist, what):
              "(def fibers @{})",
              "(defn start [w label thunk]",
              "  (put fibers w (ev/go (fn [] (def r (try (thunk) ([e] [:error e])))",
-             "    (printf \"t=%.1f worker %d %s -> %j\" (- (os/clock :monotonic) t0) w label (if (abstract? r) :chan r))))))",
+             "    (printf \"t=%.1f worker %d %s -> %j\" (- (os/clock :monotonic) t0) w label (if (abstract? r) :chan r)))))",
              "  (ev/sleep 0.05))"]
 
     def oe(op):
